@@ -11,6 +11,8 @@ OLD_FORMS = [
     ("-", "240105", "alpha", []),
     ("o P2", "240105", "alpha one", ["  * bullet"]),
     ("-", "240101", "alpha", []),          # hand-written modify date equal to the ZID's date
+    ("x P1", None, "alpha", []),           # a DONE todo that carries an explicit priority (its "todo state" includes it)
+    ("-", None, "al\x0cpha\u2028one", []),  # characters str.splitlines() breaks at but the page format does not (FF, LS)
 ]
 EDITS = ["none", "word", "kind", "priority", "bullet", "drop_date_and_word", "drop_zid"]
 
@@ -26,9 +28,9 @@ def apply_edit(form, edit):
     if edit == "word":
         rest = rest + " more"
     elif edit == "kind":
-        prefix = {"-": "o", "o P1": "x", "o P2": "~"}[prefix]
+        prefix = {"-": "o", "o P1": "x", "o P2": "~", "x P1": "o P1"}[prefix]
     elif edit == "priority":
-        prefix = {"-": "-", "o P1": "o P2", "o P2": "o P0"}[prefix]
+        prefix = {"-": "-", "o P1": "o P2", "o P2": "o P0", "x P1": "x P2"}[prefix]
         if form[0] == "-":
             rest = rest + " more"
     elif edit == "bullet":
